@@ -633,6 +633,10 @@ def binop(interp, op, a, b, inplace=False):
         return a + b
     if isinstance(a, (float, SReal)) or isinstance(b, (float, SReal)) or t is ast.Div:
         return real_binop(interp, t, a, b)
+    if isinstance(a, Dummy) and isinstance(b, Dummy):
+        r = datetime_binop(interp, t, a, b)
+        if r is not NOT_IMPLEMENTED:
+            return r
     if not (is_intlike(a) and is_intlike(b)):
         interp.throw("TypeError", f"unsupported operand type(s): {type_name(interp, a)} and {type_name(interp, b)}")
     if t is ast.Add:
